@@ -406,6 +406,7 @@ class Instance:
         self.value = value            # resolution-bit number
         self.latched = None
         self.latch_pos = 0
+        self.filter_impl = 0xFFFFFF   # the event filter bits this instance implements (others read back 0)
 
     def filter_width(self):
         # stored width by instance type: push buttons 8 bit, harness-defined
@@ -557,7 +558,7 @@ class Device(Unit):
         if op == 0x68:                            # SET EVENT FILTER (twice)
             if self._twice(value, t_us):
                 w = i.filter_width()
-                i.filter = ((self.dtr2 << 16) | (self.dtr1 << 8) | self.dtr0) & ((1 << w) - 1)
+                i.filter = ((self.dtr2 << 16) | (self.dtr1 << 8) | self.dtr0) & ((1 << w) - 1) & i.filter_impl
             return None
         if op == 0x80:
             return i.itype
